@@ -68,3 +68,14 @@ Print Assumptions C07_series_tail_zero.
 Theorem C07_limit_only_lowers : forall o (w:@world R) ev, limits_ok w -> limits_ok (fst (@apply_event R RNum o w ev)).
 Proof. exact limit_preserved. Qed.
 Print Assumptions C07_limit_only_lowers.
+
+(* ---- the executable (Q) instance that is run against /repo and the proof (R) instance agree (Transfer*.v) ---- *)
+From Coq Require Import QArith Qreals.
+From Param Require Import Param.
+From SV Require Import Transfer TransferAll.
+Theorem C07_exec_pre_step_is_proof_model : forall tbl o o' w w' evs evs',
+  SV_o_Events_o_options_R Q R QR o o' -> SV_o_Events_o_world_R Q R QR w w' ->
+  list_R _ _ (SV_o_Events_o_event_t_R Q R QR) evs evs' ->
+  prod_R _ _ (SV_o_Events_o_world_R Q R QR) _ _ (option_R _ _ err_R) (@pre_step Q (QNum tbl) o w evs) (@pre_step R RNum o' w' evs').
+Proof. exact pre_step_transfer. Qed.
+Print Assumptions C07_exec_pre_step_is_proof_model.
